@@ -693,6 +693,8 @@ def run(pm, ctx):
     ctx.import_rules(pm, 'C02', {'C02-R12'}, 'C06-R15',
                      'the unwrap helpers of the IR peel exactly the wrappers their names say '
                      '(shared with C02-R12)')
+    ctx.import_rules(pm, 'C08', {'C08-R9'}, 'C06-R16',
+                     "a union's tag table is a fresh table extended by the parent's, never the parent's own table (shared with C08-R9)")
     from ..effects import run_decisions
     from ..ownership import OWN
     run_decisions(pm, ctx, 'C06-RD', OWN['C06'])
